@@ -3,7 +3,7 @@
    (Gen_CloneFields.v); proofs are in Tree.v / Names.v / Cache.v / Witness.v. *)
 From Coq Require Import String Ascii List Bool Arith ZArith NArith.
 Import ListNotations.
-From Cb Require Import C11.Gen_CloneFields C11.Model C11.Pinned C11.Tree C11.Cache C11.Names C11.Witness.
+From Cb Require Import C11.Gen_CloneFields C11.Model C11.Pinned C11.Tree C11.Cache C11.Names C11.Witness C11.Context C11.ContextProofs.
 Local Open Scope list_scope.
 
 (* ---------------------------------------------------------------- (1) the generated tables *)
@@ -231,4 +231,106 @@ Proof.
     unfold plain. repeat split; try (intros E; subst c; discriminate).
     destruct (is_blank c); [discriminate | reflexivity]. }
   simpl. repeat split; try discriminate; apply Hc; try discriminate; reflexivity.
+Qed.
+
+(* ---------------------------------------------------------------- (6) generic impl blocks: the run-time type context *)
+
+(* Stack discipline of the method-call path (call_impl.cpp: push_type_context(impl_def->get_type_context()) before the
+   body, pop_type_context on every exit that is not an error).  For EVERY program of impl blocks, every stack the call
+   starts from, every registry of instances, every body and every depth of nesting (fuel): what the body observes
+   under the stack equals what it observes when each method body is given, once and for all, the context of the
+   instance it belongs to (run_mono: a callee of another instantiation of the SAME block gets its own map, not the
+   caller's); the registry and the outcome agree; and when the body ends without an error the stack is exactly the
+   stack it started from - so the caller's parameters are bound again after any callee, any early return. *)
+Theorem impl_context_stack_discipline : forall fuel P st ic env n b,
+  r_out (run fuel P st ic env n b) = q_out (run_mono fuel P (get_current_type_context st) ic env n b) /\
+  r_cache (run fuel P st ic env n b) = q_cache (run_mono fuel P (get_current_type_context st) ic env n b) /\
+  r_flag (run fuel P st ic env n b) = q_flag (run_mono fuel P (get_current_type_context st) ic env n b) /\
+  (flag_err (r_flag (run fuel P st ic env n b)) = false -> r_stack (run fuel P st ic env n b) = st).
+Proof. exact run_refines_mono_l. Qed.
+Print Assumptions impl_context_stack_discipline.
+
+(* the context pushed for a method call is the type map of the instance of the RECEIVER's struct type name,
+   as an empty registry would build it - in every registry reachable by running programs *)
+Theorem impl_context_is_receivers_instance : forall P ic rty m ic1 c md,
+  cache_ok P ic -> enter P ic rty m = Some (ic1, Some c, md) ->
+  exists i, fresh_inst P rty = Some i /\ c = i_map i.
+Proof. exact enter_pushes_fresh. Qed.
+Print Assumptions impl_context_is_receivers_instance.
+
+Theorem impl_registry_reachable_ok : forall fuel P calls ic,
+  cache_ok P ic -> Forall (fun x => cache_ok P (r_cache x)) (run_calls fuel P ic calls).
+Proof. exact run_calls_cache_ok. Qed.
+Print Assumptions impl_registry_reachable_ok.
+
+(* instances of impl blocks are independent and the n-th use is like the first: after ANY sequence of calls from
+   main (any nesting inside, any order of instantiations) a struct type name gets the instance it gets from an
+   empty registry *)
+Theorem impl_instances_independent : forall fuel P calls name,
+  let ic := match rev (run_calls fuel P [] calls) with [] => [] | x :: _ => r_cache x end in
+  snd (find_impl_for_struct P ic name) = snd (find_impl_for_struct P [] name).
+Proof. exact registry_transparent_l. Qed.
+Print Assumptions impl_instances_independent.
+
+(* the instance of Base<a1, ..., ak> (identifier-like arguments): the first generic impl of Base with k parameters,
+   parameter i bound to ai *)
+Theorem impl_type_args_flat : forall b a, ident b -> a <> [] -> Forall ident a ->
+  impl_type_args (show_f (FApp b a)) = Some (b, a).
+Proof. exact impl_type_args_flat_l. Qed.
+Print Assumptions impl_type_args_flat.
+
+Theorem impl_instance_binds_parameters : forall P b a k blk, ident b -> a <> [] -> Forall ident a ->
+  find_generic P b (List.length a) = Some (k, blk) ->
+  fresh_inst P (show_f (FApp b a)) = Some {| i_block := k; i_map := build_map (b_params blk) a |}.
+Proof. exact fresh_inst_flat_l. Qed.
+Print Assumptions impl_instance_binds_parameters.
+
+(* TypeContext::resolve_complex_type on the spelling of a flat type expression (T, Base<A, B>, T*, T[3]) is
+   structural substitution, provided no parameter is bound to the empty text *)
+Theorem resolve_flat_is_structural : forall c t, values_nonempty c -> wf_f t ->
+  resolve_complex_type c (show_f t) = show_f (fsubst c t).
+Proof. exact resolve_flat_is_structural_l. Qed.
+Print Assumptions resolve_flat_is_structural.
+
+(* ... and not beyond: a nested generic argument keeps its parameter *)
+Theorem resolve_nested_refuted :
+  resolve_complex_type w_ctx_int (S "Box<Cell<T>>") = S "Box<Cell<T>>" /\
+  resolve_complex_type w_ctx_int (S "Box<Cell<T>>") <> S "Box<Cell<int>>".
+Proof. exact resolve_nested_refuted_l. Qed.
+Print Assumptions resolve_nested_refuted.
+
+(* known finding C11-impl-tuple-type-argument *)
+Theorem impl_type_args_nested_refuted :
+  impl_type_args (S "Cell<Duo<int, long>>") = Some (S "Cell", [S "Duo<int"; S "long>"]) /\
+  fresh_inst [w_cell] (S "Cell<Duo<int, long>>") = None /\
+  fresh_inst [w_cell] (S "Cell<Box<long>>") = Some {| i_block := 0; i_map := [(w_T, S "Box<long>")] |}.
+Proof. exact impl_type_args_nested_refuted_l. Qed.
+Print Assumptions impl_type_args_nested_refuted.
+
+(* known finding C11-try-leaks-type-context: the `flag_err = false` premise of the stack discipline is needed *)
+Theorem error_leaves_context_refuted :
+  let st := [w_ctx_int] in
+  let st' := stack_after_try 5 [w_cell2] st [] [(S "o", S "Cell<long>")] 1 (S "o") (S "fail") in
+  st' <> st /\ resolve_type_in_context st w_T = S "int" /\ resolve_type_in_context st' w_T = S "long".
+Proof. exact error_leaves_context_refuted_l. Qed.
+Print Assumptions error_leaves_context_refuted.
+
+Example cross_instantiation_example :
+  r_out (run_main 20 [w_cell3] [] (S "Cell<int>") (S "cross") 3) = [S "int"; S "long"; S "int"; S "int"] /\
+  r_stack (run_main 20 [w_cell3] [] (S "Cell<int>") (S "cross") 3) = [].
+Proof. exact cross_instantiation_example_l. Qed.
+
+Example wf_f_example : wf_f (FApp (S "Duo") [S "A"; S "long"]) /\ values_nonempty [(S "A", S "int")].
+Proof.
+  assert (Hi : forall s, s <> [] -> forallb (fun a => negb (Ascii.eqb a c_lt) && negb (Ascii.eqb a c_gt) &&
+                 negb (Ascii.eqb a c_comma) && negb (Ascii.eqb a c_sp) && negb (Ascii.eqb a c_star) &&
+                 negb (Ascii.eqb a c_lbr) && negb (Ascii.eqb a c_tab)) s = true -> ident s).
+  { intros s Hne H. split; [exact Hne|]. rewrite forallb_forall in H. apply Forall_forall. intros a Hin.
+    specialize (H a Hin). repeat (apply andb_true_iff in H; destruct H as [H ?]).
+    unfold ident_char. repeat split; intros E; subst a; discriminate. }
+  split.
+  - cbn [wf_f]. split; [apply Hi; [discriminate | reflexivity] | split; [discriminate|]].
+    constructor; [apply Hi; [discriminate | reflexivity] | constructor; [apply Hi; [discriminate | reflexivity] | constructor]].
+  - intros k v H. cbn [lookup] in H. destruct (str_eqb k (S "A")); [|discriminate H].
+    inversion H; subst v. intros E. vm_compute in E. discriminate E.
 Qed.
